@@ -1,6 +1,7 @@
 import ServiceModel.Proofs.Reachable
 import ServiceModel.Proofs.Deposit
 import ServiceModel.Proofs.MonitorSound
+import ServiceModel.Proofs.ModSvc
 /-!
 # C03 — Binding deposits stay in custody and leave only by the rules
 -/
@@ -116,5 +117,16 @@ theorem deposit_raised_only_by_update_or_enable (s : State) (op : Op) (h : op.ma
     alarm of it on an implementation state shows a state the model cannot reach. -/
 theorem deposit_monitor_implied {cfg : Config} {p : Params} {h0 t0 : Int} (hc : CfgOK cfg p) {s : State}
     (hr : Reachable cfg p h0 t0 s) : Mon.depositBacked s = [] := depositBacked_sound (reachable_inv hc hr)
+
+/-- The module-service branch (`keeper/module_service.go`; model `callMod`, outside `step`): from every reachable state,
+    a module-service call by an ordinary account — accepted or rejected, whatever the module answers, including a
+    malformed output that slashes the module's own provider — leaves the deposit account holding exactly the recorded
+    deposits. One step, like `C01.escrow_backed_after_module_service_call` (DESIGN.md §10.10). -/
+theorem deposit_backed_after_module_service_call {cfg : Config} {p : Params} {h0 t0 : Int} (hc : CfgOK cfg p) {s : State}
+    (hr : Reachable cfg p h0 t0 s) (id : CtxId) (svc : SvcName) (prov cons : Addr) (cap : Option Nat) (inputOk : Bool)
+    (code : Nat) (out : OutKind) (hcons : ¬ s.modAcct cons) :
+    (callMod s id svc prov cons cap inputOk code out).1.bal (callMod s id svc prov cons cap inputOk code out).1.cfg.deposit =
+      depositSum (callMod s id svc prov cons cap inputOk code out).1 :=
+  (callMod_invB s id svc prov cons cap inputOk code out (reachable_inv hc hr) hcons).backed
 
 end SM.C03
